@@ -1,8 +1,565 @@
-//! C18 — not built yet.
+//! C18 — the peer registry and its aliases stay mutually consistent.
+//! Reference model (present peers; key -> peer; per-peer ordered key list) written from the
+//! statement. Sequential: every observer compared after every checked operation (all sequences up to
+//! length L over 3 peers x 3 keys, a model-state cover to depth 10, random long histories).
+//! Concurrent: recorded call/return histories of up to 4 threads checked for linearizability against
+//! the model with an exact memoised search; broadcasts are operations whose result set must equal the
+//! present set at one instant inside the call interval.
+
 use crate::common::*;
+use repe::{BodyFormat, NotifyBody, PeerHandle, PeerId, PeerRegistry, PeerSendError, PeerSink};
+use serde_json::{Value, json};
+use std::collections::{HashMap, HashSet};
+use std::sync::atomic::{AtomicU64, Ordering};
+use std::sync::{Arc, Mutex};
+
+const NP: usize = 3;
+const NK: usize = 3;
+
+#[derive(Clone, Debug, PartialEq, Eq, Hash)]
+pub enum Op {
+    Insert(u8),
+    Remove(u8),
+    Alias(u8, u8),
+    Get(u8),
+    GetBy(u8),
+    KeyFor(u8),
+    AliasesFor(u8),
+    Len,
+    Broadcast(u64),
+}
+
+#[derive(Clone, Debug, PartialEq, Eq, Hash)]
+pub enum Ret {
+    Unit,
+    Bool(bool),
+    OptPeer(Option<u8>),
+    OptKey(Option<u8>),
+    Keys(Vec<u8>),
+    N(usize),
+    Set(Vec<u8>),
+}
+
+#[derive(Clone, Debug, PartialEq, Eq, Hash, Default)]
+struct Model {
+    present: [bool; NP],
+    owner: [Option<u8>; NK],
+    lists: [Vec<u8>; NP],
+}
+
+impl Model {
+    fn apply(&mut self, op: &Op) -> Ret {
+        match *op {
+            Op::Insert(p) => {
+                self.present[p as usize] = true;
+                Ret::Unit
+            }
+            Op::Remove(p) => {
+                let was = self.present[p as usize];
+                self.present[p as usize] = false;
+                for k in 0..NK {
+                    if self.owner[k] == Some(p) {
+                        self.owner[k] = None;
+                    }
+                }
+                self.lists[p as usize].clear();
+                Ret::Bool(was)
+            }
+            Op::Alias(p, k) => {
+                if !self.present[p as usize] {
+                    return Ret::Bool(false);
+                }
+                if let Some(prev) = self.owner[k as usize] {
+                    if prev != p {
+                        self.lists[prev as usize].retain(|x| *x != k);
+                    }
+                }
+                self.owner[k as usize] = Some(p);
+                if !self.lists[p as usize].contains(&k) {
+                    self.lists[p as usize].push(k);
+                }
+                Ret::Bool(true)
+            }
+            Op::Get(p) => Ret::Bool(self.present[p as usize]),
+            Op::GetBy(k) => Ret::OptPeer(self.owner[k as usize].filter(|p| self.present[*p as usize])),
+            Op::KeyFor(p) => Ret::OptKey(self.lists[p as usize].first().copied()),
+            Op::AliasesFor(p) => Ret::Keys(self.lists[p as usize].clone()),
+            Op::Len => Ret::N(self.present.iter().filter(|x| **x).count()),
+            Op::Broadcast(_) => Ret::Set((0..NP as u8).filter(|p| self.present[*p as usize]).collect()),
+        }
+    }
+}
+
+type Captured = Arc<Mutex<Vec<(String, Vec<u8>, u16)>>>;
+
+struct CapSink {
+    got: Captured,
+}
+impl PeerSink for CapSink {
+    fn send_notify(&self, method: &str, body: NotifyBody) -> Result<(), PeerSendError> {
+        let fmt = body.body_format() as u16;
+        // widen the window in which a broadcast is sending outside the registry lock
+        for _ in 0..200 {
+            std::hint::spin_loop();
+        }
+        self.got.lock().unwrap().push((method.to_string(), body.into_bytes(), fmt));
+        Ok(())
+    }
+}
+
+struct Sys {
+    reg: PeerRegistry,
+    sinks: Vec<Captured>,
+}
+
+fn key(k: u8) -> String {
+    format!("key-{k}")
+}
+fn unkey(s: &str) -> Option<u8> {
+    s.strip_prefix("key-").and_then(|x| x.parse().ok())
+}
+fn pid(p: u8) -> PeerId {
+    PeerId(100 + p as u64)
+}
+fn unpid(id: PeerId) -> u8 {
+    (id.0 - 100) as u8
+}
+
+impl Sys {
+    fn new() -> Sys {
+        Sys { reg: PeerRegistry::new(), sinks: (0..NP).map(|_| Arc::new(Mutex::new(vec![]))).collect() }
+    }
+    /// Returns (result, broadcast-delivery problem if any)
+    fn apply(&self, op: &Op) -> (Ret, Option<String>) {
+        match *op {
+            Op::Insert(p) => {
+                self.reg.insert(PeerHandle::new(pid(p), Arc::new(CapSink { got: self.sinks[p as usize].clone() })));
+                (Ret::Unit, None)
+            }
+            Op::Remove(p) => (Ret::Bool(self.reg.remove(pid(p)).is_some()), None),
+            Op::Alias(p, k) => (Ret::Bool(self.reg.alias(pid(p), key(k))), None),
+            Op::Get(p) => (Ret::Bool(self.reg.get(pid(p)).map(|h| h.peer_id() == pid(p)).unwrap_or(false)), None),
+            Op::GetBy(k) => (Ret::OptPeer(self.reg.get_by(key(k).as_str()).map(|h| unpid(h.peer_id()))), None),
+            Op::KeyFor(p) => (Ret::OptKey(self.reg.key_for(pid(p)).and_then(|s| unkey(&s))), None),
+            Op::AliasesFor(p) => (Ret::Keys(self.reg.aliases_for(pid(p)).iter().filter_map(|s| unkey(s)).collect()), None),
+            Op::Len => (Ret::N(self.reg.len()), None),
+            Op::Broadcast(tok) => {
+                let path = format!("/bcast/{tok}");
+                let (res, body, fmt): (HashMap<PeerId, Result<(), PeerSendError>>, Vec<u8>, u16) = match tok % 4 {
+                    0 => {
+                        let v = json!({"tok": tok});
+                        (self.reg.broadcast_notify_json(&path, &v).unwrap(), serde_json::to_vec(&v).unwrap(), BodyFormat::Json as u16)
+                    }
+                    1 => {
+                        let v = (tok, "x".to_string());
+                        (self.reg.broadcast_notify_beve(&path, &v).unwrap(), beve::to_vec(&v).unwrap(), BodyFormat::Beve as u16)
+                    }
+                    2 => {
+                        let t = format!("text-{tok}");
+                        (self.reg.broadcast_notify_utf8(&path, &t), t.into_bytes(), BodyFormat::Utf8 as u16)
+                    }
+                    _ => {
+                        let b = tok.to_le_bytes().to_vec();
+                        (self.reg.broadcast_notify_raw(&path, BodyFormat::RawBinary, &b), b, BodyFormat::RawBinary as u16)
+                    }
+                };
+                let mut set: Vec<u8> = res.keys().map(|id| unpid(*id)).collect();
+                set.sort();
+                let mut problem = None;
+                if res.values().any(|r| r.is_err()) {
+                    problem = Some("a capturing sink reported an error".to_string());
+                }
+                for p in 0..NP as u8 {
+                    let got = self.sinks[p as usize].lock().unwrap();
+                    let mine: Vec<_> = got.iter().filter(|(m, _, _)| *m == path).collect();
+                    let want = if set.contains(&p) { 1 } else { 0 };
+                    if mine.len() != want {
+                        problem = Some(format!("peer {p}: {} deliveries of broadcast {tok}, result map says {want}", mine.len()));
+                    } else if let Some((_, b, f)) = mine.first() {
+                        if *b != body || *f != fmt {
+                            problem = Some(format!("peer {p}: delivered body/format differ from what was broadcast (fmt {f} want {fmt}, body_eq={})", *b == body));
+                        }
+                    }
+                }
+                (Ret::Set(set), problem)
+            }
+        }
+    }
+}
+
+fn observers() -> Vec<Op> {
+    let mut v = vec![Op::Len];
+    for p in 0..NP as u8 {
+        v.push(Op::Get(p));
+        v.push(Op::KeyFor(p));
+        v.push(Op::AliasesFor(p));
+    }
+    for k in 0..NK as u8 {
+        v.push(Op::GetBy(k));
+    }
+    v
+}
+
+fn mutators() -> Vec<Op> {
+    let mut v = vec![];
+    for p in 0..NP as u8 {
+        v.push(Op::Insert(p));
+        v.push(Op::Remove(p));
+        for k in 0..NK as u8 {
+            v.push(Op::Alias(p, k));
+        }
+    }
+    v
+}
+
+/// Run `ops` (mutators/broadcasts) on a fresh registry + model; compare all observers after each op
+/// from index `check_from`. Insert of a present peer is skipped (documented precondition).
+fn run_seq(ops: &[Op], check_from: usize) -> Option<(usize, String, String)> {
+    let sys = Sys::new();
+    let mut m = Model::default();
+    let obs = observers();
+    for (i, op) in ops.iter().enumerate() {
+        if let Op::Insert(p) = op {
+            if m.present[*p as usize] {
+                continue;
+            }
+        }
+        let (ri, problem) = sys.apply(op);
+        let rm = m.apply(op);
+        if i < check_from {
+            continue;
+        }
+        let name = format!("{op:?}");
+        let name = name.split('(').next().unwrap_or("").to_string();
+        if ri != rm {
+            return Some((i, format!("C18:result:{name}"), format!("{op:?} returned {ri:?}, model {rm:?}")));
+        }
+        if let Some(p) = problem {
+            return Some((i, "C18:broadcast-delivery".into(), p));
+        }
+        for o in &obs {
+            let (oi, _) = sys.apply(o);
+            let om = m.apply(o);
+            if oi != om {
+                let on = format!("{o:?}");
+                let on = on.split('(').next().unwrap_or("").to_string();
+                return Some((i, format!("C18:observer:{on}:after:{name}"), format!("after {op:?}: {o:?} = {oi:?}, model {om:?}")));
+            }
+        }
+    }
+    None
+}
+
+fn opj(ops: &[Op]) -> Value {
+    json!(ops.iter().map(|o| format!("{o:?}")).collect::<Vec<_>>())
+}
+
+// ------------------------------------------------------------------ linearizability
+
+#[derive(Clone, Debug)]
+struct Ev {
+    op: Op,
+    ret: Ret,
+    call: u64,
+    done: u64,
+    thread: usize,
+}
+
+/// Exact search: is there a total order consistent with real time whose model results match?
+fn linearizable(h: &[Ev], budget: &mut u64) -> Option<bool> {
+    fn rec(h: &[Ev], mask: u32, m: &Model, memo: &mut HashSet<(u32, u64)>, budget: &mut u64) -> Option<bool> {
+        if mask == (1u32 << h.len()) - 1 {
+            return Some(true);
+        }
+        if *budget == 0 {
+            return None;
+        }
+        *budget -= 1;
+        if !memo.insert((mask, hash_of(m))) {
+            return Some(false);
+        }
+        // minimal ops: not linearized, and no other unlinearized op finished before it was called
+        let min_done = (0..h.len()).filter(|i| mask & (1 << i) == 0).map(|i| h[i].done).min().unwrap();
+        for i in 0..h.len() {
+            if mask & (1 << i) != 0 || h[i].call > min_done {
+                continue;
+            }
+            let mut m2 = m.clone();
+            if m2.apply(&h[i].op) == h[i].ret {
+                match rec(h, mask | (1 << i), &m2, memo, budget) {
+                    Some(true) => return Some(true),
+                    None => return None,
+                    Some(false) => {}
+                }
+            }
+        }
+        Some(false)
+    }
+    let mut memo = HashSet::new();
+    rec(h, 0, &Model::default(), &mut memo, budget)
+}
+
+fn concurrent_history(rng: &mut Rng, threads: usize, per: usize) -> (Vec<Ev>, Option<String>) {
+    let sys = Arc::new(Sys::new());
+    let clock = Arc::new(AtomicU64::new(0));
+    let hist = Arc::new(Mutex::new(Vec::<Ev>::new()));
+    let problems = Arc::new(Mutex::new(None::<String>));
+    let tokc = Arc::new(AtomicU64::new(rng.below(1 << 40) * 4));
+    let barrier = Arc::new(std::sync::Barrier::new(threads));
+    let mut handles = vec![];
+    for t in 0..threads {
+        let mut r = rng.fork(t as u64);
+        let (sys, clock, hist, problems, tokc) = (sys.clone(), clock.clone(), hist.clone(), problems.clone(), tokc.clone());
+        let barrier = barrier.clone();
+        handles.push(std::thread::spawn(move || {
+            barrier.wait();
+            // thread t < NP owns insert/remove of peer t (keeps the insert precondition under concurrency)
+            let mut mine_present = false;
+            for _ in 0..per {
+                let op = match r.below(10) {
+                    0 | 1 if t < NP => {
+                        if mine_present {
+                            mine_present = false;
+                            Op::Remove(t as u8)
+                        } else {
+                            mine_present = true;
+                            Op::Insert(t as u8)
+                        }
+                    }
+                    2..=4 => Op::Alias(r.below(NP as u64) as u8, r.below(NK as u64) as u8),
+                    5 => Op::GetBy(r.below(NK as u64) as u8),
+                    6 => Op::AliasesFor(r.below(NP as u64) as u8),
+                    7 => Op::Broadcast(tokc.fetch_add(1, Ordering::SeqCst)),
+                    8 => Op::Get(r.below(NP as u64) as u8),
+                    _ => {
+                        if r.coin() {
+                            Op::Len
+                        } else {
+                            Op::KeyFor(r.below(NP as u64) as u8)
+                        }
+                    }
+                };
+                match r.below(4) {
+                    0 => std::thread::yield_now(),
+                    1 => {
+                        for _ in 0..r.below(400) {
+                            std::hint::spin_loop();
+                        }
+                    }
+                    _ => {}
+                }
+                let call = clock.fetch_add(1, Ordering::SeqCst);
+                let (ret, problem) = sys.apply(&op);
+                let done = clock.fetch_add(1, Ordering::SeqCst);
+                if let Some(p) = problem {
+                    *problems.lock().unwrap() = Some(p);
+                }
+                hist.lock().unwrap().push(Ev { op, ret, call, done, thread: t });
+            }
+        }));
+    }
+    for h in handles {
+        let _ = h.join();
+    }
+    let h = hist.lock().unwrap().clone();
+    let p = problems.lock().unwrap().clone();
+    (h, p)
+}
 
 pub fn run(args: &Args) -> Report {
-    let mut rep = Report::new(args, "c18-stub", "stub");
-    rep.inconclusive("check not implemented");
+    let mut rep = Report::new(
+        args,
+        "c18-model",
+        "PeerRegistry vs reference model over 3 peers x 3 keys: (a) ALL mutator sequences (insert-when-absent, remove, alias) \
+         up to length L, all observers compared after the last op; (b) model-state cover: for one representative path to every \
+         model state reachable within 10 ops, every mutator is executed and checked; (c) random histories up to 200 ops incl. \
+         broadcasts with capturing sinks; (d) concurrent histories (<=4 threads, <=16 ops) checked for linearizability by exact \
+         search; distinct = distinct operation sequences / histories",
+    );
+    let miri = args.stage.starts_with("miri");
+    let muts = mutators();
+    quiet_panics(true);
+    let found = Mutex::new(Vec::<(String, String, Value)>::new());
+
+    // (a) exhaustive sequences
+    let max_len = if miri { 2 } else if args.thorough() { 7 } else { 5 };
+    let counted = AtomicU64::new(0);
+    let threads = if miri { 1 } else { 16 };
+    std::thread::scope(|s| {
+        for t in 0..threads {
+            let (muts, found, counted) = (&muts, &found, &counted);
+            s.spawn(move || {
+                fn rec(idx: &mut Vec<usize>, muts: &[Op], max_len: usize, t: usize, threads: usize, n: &mut u64, found: &Mutex<Vec<(String, String, Value)>>) {
+                    if !idx.is_empty() {
+                        let key = idx[0] * muts.len() + idx.get(1).copied().unwrap_or(0);
+                        let mine = if idx.len() == 1 { idx[0] % threads == t } else { key % threads == t };
+                        if mine {
+                            let ops: Vec<Op> = idx.iter().map(|&i| muts[i].clone()).collect();
+                            *n += 1;
+                            match catching(|| run_seq(&ops, ops.len() - 1)) {
+                                Ok(None) => {}
+                                Ok(Some((_, sig, d))) => {
+                                    let mut f = found.lock().unwrap();
+                                    if f.len() < 300 {
+                                        f.push((sig, d, json!({"ops": opj(&ops)})));
+                                    }
+                                }
+                                Err(p) => {
+                                    let mut f = found.lock().unwrap();
+                                    if f.len() < 300 {
+                                        f.push((format!("C18:panic:{}", panic_site(&p)), p, json!({"ops": opj(&ops)})));
+                                    }
+                                }
+                            }
+                        }
+                    }
+                    if idx.len() == max_len {
+                        return;
+                    }
+                    for i in 0..muts.len() {
+                        idx.push(i);
+                        rec(idx, muts, max_len, t, threads, n, found);
+                        idx.pop();
+                    }
+                }
+                let mut idx = vec![];
+                let mut n = 0u64;
+                rec(&mut idx, muts, max_len, t, threads, &mut n, found);
+                counted.fetch_add(n, Ordering::Relaxed);
+            });
+        }
+    });
+    let ex = counted.load(Ordering::Relaxed);
+    let expect: u64 = (1..=max_len as u32).map(|l| (muts.len() as u64).pow(l)).sum();
+    rep.evaluations += ex;
+    rep.set("exhaustive_sequences", json!(ex));
+    rep.set("exhaustive_max_len", json!(max_len));
+    rep.set("small_scope_exhaustive", json!(ex == expect));
+    rep.exhaustive = Some(false);
+    if ex != expect {
+        rep.inconclusive(format!("enumeration visited {ex} sequences, expected {expect}"));
+    }
+    for i in 0..ex.min(3_000_000) {
+        rep.distinct(&("x", i));
+    }
+    rep.sample(json!({"kind": "exhaustive", "alphabet": opj(&muts), "max_len": max_len}));
+
+    // (b) model-state cover to depth 10
+    if !miri {
+        let mut seen: HashMap<Model, Vec<Op>> = HashMap::new();
+        let mut frontier = vec![(Model::default(), Vec::<Op>::new())];
+        seen.insert(Model::default(), vec![]);
+        let mut checked = 0u64;
+        for _depth in 0..10 {
+            let mut next = vec![];
+            for (m, path) in &frontier {
+                for op in &muts {
+                    if let Op::Insert(p) = op {
+                        if m.present[*p as usize] {
+                            continue;
+                        }
+                    }
+                    let mut ops = path.clone();
+                    ops.push(op.clone());
+                    checked += 1;
+                    rep.eval();
+                    match catching(|| run_seq(&ops, ops.len() - 1)) {
+                        Ok(None) => {}
+                        Ok(Some((_, sig, d))) => found.lock().unwrap().push((sig, d, json!({"ops": opj(&ops)}))),
+                        Err(p) => found.lock().unwrap().push((format!("C18:panic:{}", panic_site(&p)), p, json!({"ops": opj(&ops)}))),
+                    }
+                    let mut m2 = m.clone();
+                    m2.apply(op);
+                    if !seen.contains_key(&m2) {
+                        seen.insert(m2.clone(), ops.clone());
+                        next.push((m2, ops));
+                    }
+                }
+            }
+            if next.is_empty() {
+                break;
+            }
+            frontier = next;
+        }
+        rep.set("model_states_reached", json!(seen.len()));
+        rep.set("state_cover_transitions_checked", json!(checked));
+    }
+
+    // (c) random long histories with broadcasts
+    let n = args.budget(2_000, 100_000);
+    let mut rng = Rng::new(args.seed ^ 0xC18);
+    let mut total_ops = 0u64;
+    for case in 0..n {
+        let mut r = rng.fork(case);
+        let len = if miri { 1 + r.usize_below(10) } else { 1 + r.usize_below(200) };
+        let ops: Vec<Op> = (0..len)
+            .map(|j| if r.chance(1, 8) { Op::Broadcast(case * 1000 + j as u64) } else { r.pick(&muts).clone() })
+            .collect();
+        total_ops += len as u64;
+        rep.eval();
+        rep.distinct(&ops);
+        if case < 2 {
+            rep.sample(json!({"kind": "random", "len": len, "ops": opj(&ops[..len.min(10)])}));
+        }
+        match catching(|| run_seq(&ops, 0)) {
+            Ok(None) => {}
+            Ok(Some((i, sig, d))) => found.lock().unwrap().push((sig, format!("op #{i}: {d}"), json!({"ops": opj(&ops[..=i.min(len - 1)])}))),
+            Err(p) => found.lock().unwrap().push((format!("C18:panic:{}", panic_site(&p)), p, json!({"ops": opj(&ops)}))),
+        }
+    }
+    rep.set("random_operations_checked", json!(total_ops));
+
+    // (d) concurrent histories, linearizability
+    let nh = if miri { 3 } else { args.budget(1_500, 60_000) };
+    let mut lin_ok = 0u64;
+    let mut overlapping = 0u64;
+    let mut timeouts = 0u64;
+    for case in 0..nh {
+        let mut r = rng.fork(0xABC000 + case);
+        let threads = if miri { 2 } else { 2 + r.usize_below(3) };
+        let per = if miri { 3 } else { 16 / threads };
+        let (h, problem) = concurrent_history(&mut r, threads, per);
+        rep.eval();
+        let key: Vec<_> = {
+            let mut hh = h.clone();
+            hh.sort_by_key(|e| e.call);
+            hh.iter().map(|e| (e.thread, e.op.clone(), e.ret.clone())).collect()
+        };
+        rep.distinct(&key);
+        // real overlap present?
+        let mut s = h.clone();
+        s.sort_by_key(|e| e.call);
+        if s.windows(2).any(|w| w[1].call < w[0].done) {
+            overlapping += 1;
+        }
+        let hj = || json!(s.iter().map(|e| format!("t{} [{}..{}] {:?} -> {:?}", e.thread, e.call, e.done, e.op, e.ret)).collect::<Vec<_>>());
+        if let Some(p) = problem {
+            found.lock().unwrap().push(("C18:broadcast-delivery:concurrent".into(), p, json!({"history": hj()})));
+        }
+        let mut budget = 2_000_000u64;
+        match linearizable(&h, &mut budget) {
+            Some(true) => lin_ok += 1,
+            Some(false) => found.lock().unwrap().push(("C18:not-linearizable".into(), "no sequential order of the recorded concurrent history matches the model".into(), json!({"history": hj()}))),
+            None => timeouts += 1,
+        }
+        if case == 0 {
+            rep.sample(json!({"kind": "concurrent", "history": hj()}));
+        }
+    }
+    quiet_panics(false);
+    rep.set("concurrent_histories_linearizable", json!(lin_ok));
+    rep.set("concurrent_histories_with_overlapping_ops", json!(overlapping));
+    rep.set("linearizability_checker_timeouts", json!(timeouts));
+    if timeouts > nh / 10 {
+        rep.inconclusive(format!("linearizability checker timed out on {timeouts} of {nh} histories"));
+    }
+    if !miri && overlapping == 0 {
+        rep.inconclusive("no concurrent history had overlapping operations");
+    }
+    let mut f = found.into_inner().unwrap();
+    f.sort_by_key(|(_, _, v)| v["ops"].as_array().map(|a| a.len()).unwrap_or(99));
+    for (sig, d, v) in f {
+        rep.violation(sig, d, v);
+    }
     rep
 }
